@@ -15,6 +15,7 @@ from vf.sim.install import Installed
 from vf.sim.session import ADDR, LineConn, ClientFailure, make_settings, Fmt
 
 ID = 'C20'
+USES_SIM = True
 LEVEL = 'fault_enumeration'
 RULE = ('simulated admission followed by a one-board passed-out session: a generated list of 4-10 connection attempts - exactly '
         'one valid request per seat plus 0-6 invalid ones of kinds wrong protocol version (0-999, not 18), seat already '
